@@ -329,6 +329,47 @@ def make_conj(base, how):
     return base.conj()
 
 
+def run_ketconj(net, build_ket, stats=None):
+    """Bra-ket networks only: contract the ket tensors first, conjugate the
+    *contracted* ket (instead of contracting conjugated leaves) and close the
+    network with it. Returns (value, legs) or None if not applicable."""
+    ts = net["tensors"]
+    kets = [i for i, t in enumerate(ts) if "conj_of" not in t]
+    bras = [i for i, t in enumerate(ts) if "conj_of" in t]
+    hows = {ts[i]["how"] for i in bras}
+    if not bras or len(bras) != len(kets) or len(hows) != 1 or hows & {"conj_pd"}:
+        return None
+    how = hows.pop()
+    vals = build_ket()
+    # ket tensors, left to right, over all shared bonds
+    cur_v, cur_l = vals[f"T{kets[0]}"], list(ts[kets[0]]["legs"])
+    for i in kets[1:]:
+        v, l = vals[f"T{i}"], list(ts[i]["legs"])
+        sh = [x for x in cur_l if x in l]
+        cur_v = sr.tensordot(cur_v, v, axes=([cur_l.index(x) for x in sh], [l.index(x) for x in sh]),
+                             preserve_array=True)
+        cur_l = [x for x in cur_l if x not in sh] + [x for x in l if x not in sh]
+    # name of every dangling ket leg on the bra side
+    ren = {}
+    for i, b in zip(kets, bras):
+        kl, bl = ts[i]["legs"], ts[b]["legs"]
+        if how == "dagger":
+            bl = list(reversed(bl))
+        for a, c in zip(kl, bl):
+            ren[a] = c
+    bra_v = make_conj(cur_v, how)
+    bra_l = [ren[x] for x in cur_l]
+    if how == "dagger":
+        bra_l.reverse()
+    sh = [x for x in cur_l if x in bra_l]
+    out = sr.tensordot(cur_v, bra_v, axes=([cur_l.index(x) for x in sh], [bra_l.index(x) for x in sh]),
+                       preserve_array=True)
+    out_l = [x for x in cur_l if x not in sh] + [x for x in bra_l if x not in sh]
+    if stats is not None:
+        stats["route.conjugated_intermediate"] += 1
+    return out, out_l
+
+
 def canonicalise(v, legs):
     """Bring free legs into sorted-name order by fermionic transpose."""
     order = sorted(range(len(legs)), key=lambda i: legs[i])
@@ -479,11 +520,26 @@ class C04(EngineBase):
             st.states.add(core.digest([cfg["topology"], par, shape])[:12])
             st.stats["fault.operand_transpose"] += sum(1 for d in st.routes[r] if d["op"] == "transpose")
             st.log.add("route", [r, lg, S.structure(v) if S.kind_of(v) in "AF" else "scalar"])
+        if cfg["topology"].startswith("braket") and cfg.get("ketconj", True):
+            try:
+                kc = run_ketconj(st.net, lambda: self._build(st)[0], st.stats)
+            except HarnessError:
+                raise
+            except Exception as e:  # noqa: BLE001
+                kc = ("raised", type(e).__name__, str(e)[:120])
+            if kc is not None:
+                if kc[0] == "raised":
+                    results["ketconj"] = kc
+                else:
+                    v, lg = kc
+                    if isinstance(v, sr.AbelianArray) and v.ndim > 0:
+                        v, lg = canonicalise(v, lg)
+                    results["ketconj"] = ("ok", v, lg)
         ref = results.get(0)
         if ref is None or ref[0] != "ok":
             st.stats["route.reference_failed"] += 1
             return
-        for r, res in sorted(results.items()):
+        for r, res in sorted(results.items(), key=lambda kv: str(kv[0])):
             if r == 0:
                 continue
             if res[0] == "incomplete":
